@@ -43,6 +43,10 @@ func NewRPCError(oErr OrdaError) error {
 		c = codes.Internal
 	case ServerBadRequest:
 		c = codes.InvalidArgument
+	default:
+		// any other error must still be an error for the caller:
+		// status.Error(codes.OK, ...) is nil, and the request would be answered with neither a response nor an error.
+		c = codes.Internal
 	}
 	return status.Error(c, oErr.Error())
 }
